@@ -1,8 +1,210 @@
 import MidnightZK.Model.Common
-/-! Line-protocol handler of property C09 (stub: answers `unimplemented`). -/
-namespace MidnightZK.C09.Driver
+import MidnightZK.Model.C09.Planner
+import Std.Data.HashMap
+/-! Line-protocol handler of property C09.
 
-def answer (_line : String) : String := "unimplemented"
+Requests:
+* `selfcheck <what> <circuit>` — harness self-consistency line; the expected answer is `ok`.
+* `place K=<consts> U=<u> M=<m> ; <cols>:<rows>:<nconst> …` — region shapes as seen by the real
+  layouter's shape pass; answer: the start row of every region (`_` for a region without cells).
+* `layout K=… U=… M=… ; <item> ; <item> …` — the region-relative call log of one synthesis;
+  answer: region starts, digest of the absolute call sequence, number of calls, cost model
+  (`rows`, `trows`, `irows`, `k`) and digest of the keygen view (fixed cells and selectors).
+* `cache <c1> <c2> …` — constants passed to `assign_fixed`; answer: cached-cell index per request
+  and the values for which a fixed cell was created, in order.
+-/
+namespace MidnightZK.C09.Driver
+open MidnightZK MidnightZK.C09
+
+def P61 : Nat := 2 ^ 61 - 1
+def BASE : Nat := 1000003
+
+@[inline] def tok (h t : Nat) : Nat := (h * BASE + t % P61 + 1) % P61
+def toks (h : Nat) (ts : List Nat) : Nat := ts.foldl tok h
+def tokVal (h v : Nat) : Nat :=
+  let m := 2 ^ 64
+  toks h [v % m, (v / m) % m, (v / m / m) % m, (v / m / m / m) % m]
+
+def digAbs (h : Nat) : Abs → Nat
+  | .enter => tok h 1
+  | .exit => tok h 2
+  | .sel s r => toks h [3, s, r]
+  | .fix c r v => tokVal (toks h [4, c, r]) v
+  | .adv c r _ => toks h [5, c, r]
+  | .copy a ra b rb => toks h [6, a.kind, a.idx, ra, b.kind, b.idx, rb]
+  | .fill c r v => tokVal (toks h [7, c, r]) v
+  | .query c r => toks h [8, c, r]
+
+/-! ### parsing -/
+
+def parseCol? (s : String) : Option Col :=
+  match s.toList with
+  | 'a' :: r => (String.ofList r).toNat?.map (⟨0, ·⟩)
+  | 'f' :: r => (String.ofList r).toNat?.map (⟨1, ·⟩)
+  | 'i' :: r => (String.ofList r).toNat?.map (⟨2, ·⟩)
+  | 's' :: r => (String.ofList r).toNat?.map (⟨3, ·⟩)
+  | _ => none
+
+def parseCell? (s : String) : Option Cell :=
+  match s.splitOn "." with
+  | [r, o, c] => do
+    let r ← r.toNat?; let o ← o.toNat?; let c ← parseCol? c
+    pure ⟨r, o, c⟩
+  | _ => none
+
+/-- `<col>@<off>` and optional `=<hex>`. -/
+def parseAt? (s : String) : Option (Nat × Nat × Option Nat) :=
+  let (lhs, v) : String × Option String :=
+    match s.splitOn "=" with
+    | [l] => (l, none)
+    | [l, v] => (l, some v)
+    | _ => ("", none)
+  match lhs.splitOn "@" with
+  | [c, o] => do
+    let c ← c.toNat?; let o ← o.toNat?
+    match v with
+    | none => pure (c, o, none)
+    | some v => do let v ← parseNat? v; pure (c, o, some v)
+  | _ => none
+
+def parseEv? (s : String) : Option Ev :=
+  let body := (s.drop 1).toString
+  match s.toList.head? with
+  | some 's' => do let (c, o, v) ← parseAt? body; if v.isSome then none else pure (.sel c o)
+  | some 'f' => do let (c, o, v) ← parseAt? body; let v ← v; pure (.fix c o v)
+  | some 'a' => do let (c, o, v) ← parseAt? body; pure (.adv c o v)
+  | some 'k' => do let (c, o, v) ← parseAt? body; let v ← v; pure (.advConst c o v)
+  | some 'n' =>
+    match body.splitOn ">" with
+    | [i, a] =>
+      match i.splitOn "." with
+      | [ic, ir] => do
+        let ic ← ic.toNat?; let ir ← ir.toNat?
+        let (c, o, v) ← parseAt? a
+        if v.isSome then none else pure (.advInst ic ir c o)
+      | _ => none
+    | _ => none
+  | some 'c' =>
+    match body.splitOn "=" with
+    | [cell, v] => do let cell ← parseCell? cell; let v ← parseNat? v; pure (.const cell v)
+    | _ => none
+  | some 'e' =>
+    match body.splitOn "~" with
+    | [l, r] => do let l ← parseCell? l; let r ← parseCell? r; pure (.equal l r)
+    | _ => none
+  | some 'q' =>
+    match body.splitOn "." with
+    | [ic, ir] => do let ic ← ic.toNat?; let ir ← ir.toNat?; pure (.instVal ic ir)
+    | _ => none
+  | _ => none
+
+def parseItem? (s : String) : Option Item :=
+  match words s with
+  | "R" :: evs => (evs.mapM parseEv?).map .region
+  | "T" :: cells =>
+    (cells.mapM (fun t => do
+      let body := (t.drop 1).toString
+      if t.toList.head? != some 'f' then none
+      let (c, o, v) ← parseAt? body
+      let v ← v
+      pure (c, o, v))).map .table
+  | ["I", cell, ic, ir] => do
+    let cell ← parseCell? cell; let ic ← ic.toNat?; let ir ← ir.toNat?
+    pure (.inst cell ic ir)
+  | _ => none
+
+structure Hdr where
+  cfg : Cfg
+  u : Nat
+  m : Nat
+
+def parseHdr? (s : String) : Option Hdr :=
+  match words s with
+  | [_, k, u, m] => do
+    if !(k.startsWith "K=" && u.startsWith "U=" && m.startsWith "M=") then none
+    let ks ← parseNatList? (k.drop 2).toString
+    let u ← (u.drop 2).toString.toNat?
+    let m ← (m.drop 2).toString.toNat?
+    pure ⟨⟨ks⟩, u, m⟩
+  | _ => none
+
+def fmtStarts (l : List (Option Nat)) : String :=
+  if l.isEmpty then "-" else
+  ",".intercalate (l.map (fun x => match x with | some n => toString n | none => "_"))
+
+/-! ### requests -/
+
+def parseShape? (s : String) : Option ItemShape :=
+  match s.splitOn ":" with
+  | [cols, rows, n] => do
+    let cols ← if cols = "-" then some [] else (cols.splitOn ",").mapM parseCol?
+    let rows ← rows.toNat?; let n ← n.toNat?
+    pure (.region ⟨cols, rows⟩ n)
+  | _ => none
+
+def answerPlace (hdr shapes : String) : String :=
+  match parseHdr? hdr, (words shapes).mapM parseShape? with
+  | some h, some shs =>
+    let sts := placeAll h.cfg shs
+    let empt := shs.map (fun s => match s with | .region sh _ => sh.cols.isEmpty | .other => true)
+    fmtStarts ((sts.zip empt).map (fun p => if p.2 then none else some p.1))
+  | _, _ => "bad-op"
+
+/-- Digest of the keygen view: fixed cells (last write wins, fills expanded up to the usable
+rows) in (column, row) order, then the enabled selector cells in (selector, row) order. -/
+def viewDigest (usable : Nat) (view : List Abs) : Nat :=
+  let fixed : Std.HashMap (Nat × Nat) Nat := view.foldl (fun m a =>
+    match a with
+    | .fix c r v => m.insert (c, r) v
+    | .fill c r v => (List.range (usable - r)).foldl (fun m i => m.insert (c, r + i) v) m
+    | _ => m) {}
+  let sels : Std.HashMap (Nat × Nat) Unit := view.foldl (fun m a =>
+    match a with
+    | .sel s r => m.insert (s, r) ()
+    | _ => m) {}
+  let lt (a b : Nat × Nat) : Bool := a.1 < b.1 || (a.1 == b.1 && a.2 < b.2)
+  let fa := (fixed.toArray.filter (fun x => x.1.2 < usable)).qsort (fun a b => lt a.1 b.1)
+  let sa := ((sels.toArray.map (·.1)).filter (fun x => x.2 < usable)).qsort lt
+  let h := fa.foldl (fun h x => tokVal (toks h [x.1.1, x.1.2]) x.2) 0
+  let h := tok h 0
+  sa.foldl (fun h x => toks h [x.1, x.2]) h
+
+def answerLayout (hdr : String) (items : List String) : String :=
+  match parseHdr? hdr, items.mapM parseItem? with
+  | some h, some its =>
+    let r := layout h.cfg its
+    if r.1.err then "error NotEnoughColumnsForConstants" else
+    let sts := r.1.starts.toList
+    let empt := its.filterMap (fun it =>
+      match it with | .region evs => some (shapeOf evs).cols.isEmpty | _ => none)
+    let stsS := fmtStarts ((sts.zip empt).map (fun p => if p.2 then none else some p.1))
+    let digs := r.2.map (fun cs => cs.foldl digAbs 0)
+    let H := digs.foldl tok 0
+    let all := r.2.flatten
+    let c := costOf all
+    let k := circuitK h.u h.m c
+    let V := viewDigest (2 ^ k - h.u) (keygenView all)
+    s!"starts={stsS} H={H} n={all.length} rows={c.1} trows={c.2.1} irows={c.2.2} k={k} V={V}"
+  | _, _ => "bad-op"
+
+def answerCache (cs : List String) : String :=
+  match cs.mapM parseNat? with
+  | some cs =>
+    let r := cacheRun [] cs
+    s!"{fmtNatList r.2} ; {fmtHexList r.1}"
+  | none => "bad-op"
+
+def answer (line : String) : String :=
+  let parts := line.trimAscii.toString.splitOn " ; "
+  match parts with
+  | [] => "bad-op"
+  | hdr :: rest =>
+    match words hdr with
+    | "selfcheck" :: _ => "ok"
+    | "place" :: _ => answerPlace hdr (" ".intercalate rest)
+    | "layout" :: _ => answerLayout hdr rest
+    | "cache" :: cs => if rest.isEmpty then answerCache cs else "bad-op"
+    | _ => "bad-op"
 
 end MidnightZK.C09.Driver
 
